@@ -119,6 +119,13 @@ def oracle_history(ctx, st, events, impl):
             ctx.property_failure("forward_rhl_le_1", inp, "a packet received with hop limit 0 or 1 was forwarded", [], [p.hex() for p in fwd])
         if len(fwd) > 1:
             ctx.property_failure("forward_twice", inp, "one received packet was forwarded more than once", 1, len(fwd))
+        # an entry whose lifetime had run out when the packet arrived is not re-used (whether or not a purge has removed
+        # it yet): the duplicate window of that source starts afresh
+        pe = next((e for e in (prev["state"]["loct"] if prev else []) if tuple(e["addr"]) == src), None)
+        if pe is not None and pe["set"]:
+            age = ((ev["now"] - pe["pv"][3] + 2 ** 31) % M32) - 2 ** 31
+            if age > st.params["life_ms"]:
+                ring.pop(src, None)
         if ev["kind"] in MH and valid:
             r = ring.setdefault(src, [])
             key = src + (ev["sn"],)
